@@ -7,6 +7,33 @@ Theorem c06_espnet_layout :
 Proof. reflexivity. Qed.
 Print Assumptions c06_espnet_layout.
 
+(* every constant the espnet model takes from the repository (sizeof / offsetof of the packed wire structs, opcodes,
+   vectors, masks), regenerated into GenEspNet.v on each run, pinned to the value the proofs and statements were written
+   for: a change of the wire layout or of a constant in /repo breaks this obligation deterministically *)
+Theorem c06_espnet_consts :
+  ES_PACKET_SIZE = 521 /\
+  ES_HEAD_SIZE = 4 /\
+  ES_POLL_SIZE = 5 /\
+  ES_REPLY_SIZE = 33 /\
+  ES_ACK_SIZE = 6 /\
+  ES_DATA_SIZE = 521 /\
+  ES_OFF_poll_type = 4 /\
+  ES_OFF_universe = 4 /\
+  ES_OFF_type = 6 /\
+  ES_OFF_size = 7 /\
+  ES_OFF_data = 9 /\
+  ES_POLL = 1163087952 /\
+  ES_REPLY = 1163087954 /\
+  ES_DMX = 1163084868 /\
+  ES_ACK = 1163084112 /\
+  ES_DATA_RAW = 1 /\
+  ES_DATA_PAIRS = 2 /\
+  ES_DATA_RLE = 4 /\
+  ES_REPEAT_VALUE = 254 /\
+  ES_ESCAPE_VALUE = 253.
+Proof. repeat split; reflexivity. Qed.
+Print Assumptions c06_espnet_consts.
+
 Theorem c06_espnet_no_oob : forall buf n self st,
   bytes_ok buf = true -> len buf = 521 -> n <= len buf ->
   run buf (es_handle n self st) <> Hazard Oob.
@@ -36,6 +63,47 @@ Proof.
 Qed.
 Print Assumptions c06_espnet_stale_free.
 
+(* "never fails to return": espnet RunLengthDecoder::Decode, wherever it is pointed, ends within
+   fuel = length + 1; measure: length - p, every turn consumes at least one byte *)
+Theorem c06_espnet_rle_returns : forall buf base length b z,
+  bytes_ok buf = true -> z <> Oob -> run buf (es_rle_decode base length b) <> Hazard z.
+Proof.
+  intros buf base length b z Hb Hz E. apply Hz.
+  exact (nofail_run _ (bounded_nofail _ _ (es_rle_decode_bounded (base + length) base length b (N.le_refl _))) buf z Hb E).
+Qed.
+Print Assumptions c06_espnet_rle_returns.
+
+(* independent of the capacity and of what the socket layer reports: for a receive buffer of ANY size and ANY reported
+   length n < 2^31 the handler returns (its loops end within their fuel: RLE decoder: fuel = data length + 1, every turn consumes at least one byte) and never divides by zero; and if
+   the buffer does hold n bytes it reads nothing at or beyond n *)
+Theorem c06_espnet_any_length : forall buf n self st,
+  bytes_ok buf = true -> n <= 2147483647 ->
+  (forall z, z <> Oob -> run buf (es_handle n self st) <> Hazard z) /\
+  (n <= len buf -> forall z, run buf (es_handle n self st) <> Hazard z).
+Proof.
+  intros buf n self st Hb Hn. pose proof (espnet_bounded_any n self st Hn) as B. split.
+  - intros z Hz E. apply Hz. exact (nofail_run _ (bounded_nofail _ _ B) buf z Hb E).
+  - intros Hl z. apply (bounded_no_hazard n); assumption.
+Qed.
+Print Assumptions c06_espnet_any_length.
+
+(* history level: any sequence of datagrams (each from our own address or not), each followed in the receive buffer by arbitrary stale bytes, from any
+   initial state: no datagram ends in a hazard, and every output and the final state are the same whatever the
+   stale tails are *)
+Theorem c06_espnet_history : forall (h1 h2 : list (bool * list N * list N)) s,
+  Forall (fun x => let '(_, d, t) := x in bytes_ok d = true /\ bytes_ok t = true /\ len d <= 521) h1 ->
+  Forall2 (fun x y => fst x = fst y) h1 h2 ->
+  (exists r, run_hist (fun self n st => es_handle n self st) (fun _ r => fst (fst r)) s h1 = Done r) /\
+  run_hist (fun self n st => es_handle n self st) (fun _ r => fst (fst r)) s h1 = run_hist (fun self n st => es_handle n self st) (fun _ r => fst (fst r)) s h2.
+Proof.
+  intros h1 h2 s Hok H2.
+  assert (Hb : forall i n st, n <= ES_PACKET_SIZE -> bounded n ((fun self n st => es_handle n self st) i n st)) by (intros; apply espnet_bounded; assumption).
+  split.
+  - apply (hist_safe ES_PACKET_SIZE _ _ Hb). exact Hok.
+  - apply (hist_stale_free ES_PACKET_SIZE _ _ Hb); assumption.
+Qed.
+Print Assumptions c06_espnet_history.
+
 (* an RLE data packet "ESDD" universe 0, type RLE, size 6: 7, REPEAT 3 x 9, ESCAPE 0xFE; the trailing REPEAT of a
    7-byte variant is not decoded (see ex_espnet_tail) *)
 Example ex_espnet_handled :
@@ -52,4 +120,13 @@ Proof. vm_compute. reflexivity. Qed.
 
 Example ex_espnet_poll :
   run ([69; 83; 80; 80; 1] ++ repeat 165 516) (es_handle 5 false []) = Done ([], None, EsTxReply).
+Proof. vm_compute. reflexivity. Qed.
+
+(* a two-datagram history meeting the hypotheses of c06_espnet_history: an RLE data packet, then a poll *)
+Example ex_espnet_history :
+  run_hist (fun self n st => es_handle n self st) (fun _ r => fst (fst r)) [(0, Some [1; 2])]
+    [(false, [69; 83; 68; 68; 0; 0; 4; 0; 6; 7; 254; 3; 9; 253; 254], repeat 165 506);
+     (false, [69; 83; 80; 80; 1], repeat 0 516)]
+  = Done ([(0, Some [7; 9; 9; 9; 254])],
+          [([(0, Some [7; 9; 9; 9; 254])], Some 0, EsTxNone); ([(0, Some [7; 9; 9; 9; 254])], None, EsTxReply)]).
 Proof. vm_compute. reflexivity. Qed.
